@@ -1,7 +1,9 @@
 """Engine `resurrect` (C09): ResurrectorSink over the real pools / transports over the simulated
 network, for one endpoint whose reachability the script controls; component chains
 [ClientTimeoutSink -> serializer -> ResurrectorSink -> (WatermarkPool ->) transport] and complete
-clients built by Thrift.NewBuilder / ThriftMux.NewBuilder with a single-member server set.
+clients built by Thrift.NewBuilder / ThriftMux.NewBuilder with a single-member server set; and (level
+'multi') complete clients over 2-4 endpoints behind the real Aperture / heap balancer, every order of
+endpoints going away and coming back, projected on one focus endpoint.
 
 Oracle: specs/ResurrectAbs.tla via ResurrectAbsTrace.  Code-shaped model: specs/Resurrector.tla.
 """
@@ -21,6 +23,8 @@ ASSUMPTIONS = [
   'C09.failFast is asserted only for requests issued while the resurrector reports Closed and no connect attempt is in progress',
   'back-off gaps are measured from the end of one attempt to the start of the next; domain initial > 1 s, exponent > 1',
   'C09.recovers is asserted by the driver only after the endpoint has been reachable with steady traffic for max_wait_interval + slack',
+  'multi-endpoint cases: all n members are in the aperture (min_size = n, jitter off) or the heap balancer is used, and steady traffic is '
+  'bursts of n + 1 concurrent calls, so a least-loaded balancer has to use every member that is up; the trace is the projection on one endpoint',
 ]
 RULE_DEFAULT = ('seeded reachability histories (down/up at random points relative to traffic and to the retry timer, incl. '
                 'unreachable at first connect) x back-off configurations x {serial+pool, mux} x {component chain, full client}; '
@@ -79,13 +83,85 @@ def _gen(rng, i):
   return s
 
 
+def _multi_systematic():
+  """Several endpoints behind the real balancer: every order in which a subset of them goes away and comes
+  back, observed at each of them in turn (the focus endpoint's projection is what the oracle sees)."""
+  import itertools
+  out = []
+  for n in (2, 3):
+    for k in range(1, n + 1):
+      for downs in itertools.permutations(range(n), k):
+        for ups in itertools.permutations(downs):
+          out.append((n, list(downs), list(ups)))
+  return out
+
+
+def _gen_multi(rng, i, pattern=None):
+  kind = 'thrift' if i % 2 == 0 else 'mux'
+  initial, mx, exp = [(2, 10, 1.5), (3, 20, 2.0), (5, 60, 1.2)][(i // 2) % 3]
+  s = {'kind': kind, 'level': 'multi', 'initial': initial, 'max': mx, 'exp': exp, 'rseed': rng.randint(0, 10 ** 6),
+       'balancer': rng.choice(['aperture', 'aperture', 'heap']), 'down_mode': rng.choice(['refuse', 'refuse20']), 'steps': []}
+  st = s['steps']
+  spacing = rng.choice([200, 500, 1000])
+  if pattern is not None:
+    n, downs, ups = pattern
+    s['n'] = n
+    s['focus'] = ups[i % len(ups)] if i % 3 else ups[-1]
+    st.append(['traffic', 2000, spacing])
+    for e in downs:
+      st.append(['reach', 0, e])
+      st.append(['traffic', rng.choice([500, 3000, mx * 1000 + 3000]), spacing])
+    last_up = None
+    for e in ups:
+      st.append(['reach', 1, e])
+      if e == s['focus']:
+        st.append(['recover', spacing])
+      else:
+        st.append(['traffic', mx * 1000 + 9000, spacing])
+    if rng.random() < 0.3:
+      st.append(['close'])
+      st.append(['adv', 70000])
+    return s
+  n = s['n'] = rng.randint(2, 4)
+  s['focus'] = rng.randrange(n)
+  up = [True] * n
+  st.append(['traffic', 1000, spacing])
+  for _ in range(rng.randint(3, 8)):
+    e = rng.randrange(n)
+    up[e] = not up[e]
+    st.append(['reach', 1 if up[e] else 0, e])
+    k = rng.random()
+    if k < 0.7:
+      st.append(['traffic', rng.choice([300, 2500, 8000, mx * 1000 + 9000]), spacing])
+    elif k < 0.85:
+      st.append(['adv', rng.choice([100, 5000, 30000])])
+  if not up[s['focus']]:
+    st.append(['reach', 1, s['focus']])
+  st.append(['recover', spacing])
+  if rng.random() < 0.3:
+    st.append(['close'])
+    st.append(['adv', 70000])
+  return s
+
+
 def cases(prop, tier, seed):
   rng = random.Random(15485863 * int(seed) + 3)
   n = 400 if tier == 'quick' else 8000
-  return [_gen(rng, i) for i in range(n)]
+  out = [_gen(rng, i) for i in range(n)]
+  pats = _multi_systematic()
+  if tier == 'quick':
+    rng2 = random.Random(7 * int(seed) + 1)
+    pats = [p for p in pats if p[0] == 2] + rng2.sample([p for p in pats if p[0] == 3], 14)
+  out += [_gen_multi(rng, i + int(seed), pat) for i, pat in enumerate(pats)]
+  if tier != 'quick':
+    out += [_gen_multi(rng, i + 1 + int(seed), pat) for i, pat in enumerate(pats)]
+  out += [_gen_multi(rng, i) for i in range(20 if tier == 'quick' else 600)]
+  return out
 
 
 def run_case(script):
+  if script.get('level') == 'multi':
+    return run_case_multi(script)
   loop = common.boot()
   import gevent
   from harness.simgevent import simnet, peers
@@ -364,6 +440,154 @@ def run_case(script):
   return {'cfg': {'t0': T0, 'initial': int(script['initial'] * 1000), 'max': int(script['max'] * 1000), 'slack': slack,
                   'kind': kind, 'level': level},
           'ev': ev, 'meta': {'errors': [list(e[1:3]) for e in loop.errors][:4]}}
+
+
+def run_case_multi(script):
+  """n endpoints behind the real balancer (Aperture with min_size = n, or the heap balancer) of a complete
+  Thrift / ThriftMux client; traffic comes in bursts of n + 1 concurrent calls, so a least-loaded balancer
+  must use every endpoint that is up.  The trace is the projection on one (focus) endpoint."""
+  loop = common.boot()
+  import gevent
+  from harness.simgevent import simnet, peers
+  from harness.simgevent.vloop import EPOCH
+  from harness.engines.stack import patch_random
+  from scales.loadbalancer import ApertureBalancerSink, HeapBalancerSink
+  from scales.resurrector import ResurrectorSink
+  from test.scales.thrift.gen_py.hello import Hello
+
+  loop.run_until(EPOCH + T0 / 1000.0)
+  loop.settle()
+  net = simnet.SimNet(loop).install()
+  patch_random(script['rseed'])
+  kind, n, focus = script['kind'], script['n'], script['focus']
+  hosts = ['10.0.0.%d' % (i + 1) for i in range(n)]
+  fhost = hosts[focus]
+  ev = []
+
+  def ms():
+    return int(round((loop.now() - EPOCH) * 1000))
+
+  env = {'up': {h: True for h in hosts}, 'closed': False, 'attempt_open': {}, 'last_up_at': T0}
+  peer = peers.ThriftPeer(net, auto_delay=0.01) if kind == 'thrift' else peers.MuxPeer(net, auto_delay=0.01)
+  net.peer_factory = lambda c: peer
+  down_mode = script['down_mode']
+
+  def on_connect_start(conn):
+    if env['up'].get(conn.addr[0], False):
+      conn.connect_plan = ('ok', 0.01)
+    elif down_mode == 'refuse20':
+      conn.connect_plan = ('refuse', 0.02)
+    else:
+      conn.connect_plan = ('refuse', 0.0)
+  net.on_connect_start = on_connect_start
+
+  rparams = dict(initial_wait_interval=script['initial'], max_wait_interval=script['max'], backoff_exponent=script['exp'])
+  if kind == 'thrift':
+    from scales.thrift import Thrift
+    b = Thrift.NewBuilder(Hello.Iface)
+  else:
+    from scales.thriftmux import ThriftMux
+    b = ThriftMux.NewBuilder(Hello.Iface)
+  b = b.ReplaceSink(ResurrectorSink.Builder, ResurrectorSink.Builder(**rparams))
+  if script['balancer'] == 'heap':
+    b = b.ReplaceSink(ApertureBalancerSink.Builder, HeapBalancerSink.Builder())
+  else:
+    b = b.ReplaceSink(ApertureBalancerSink.Builder, ApertureBalancerSink.Builder(min_size=n, jitter_min_sec=0, jitter_max_sec=0))
+  b = b.SetUri('tcp://' + ','.join('%s:9090' % h for h in hosts)).SetTimeout(10).SetOpenTimeout(0)
+  client = b.Build()
+
+  def on_net(e):
+    k = e['kind']
+    c = e['conn']
+    if net.conns[c].addr is None or net.conns[c].addr[0] != fhost:
+      return
+    if k == 'connect':
+      env['attempt_open'][c] = True
+      ev.append({'e': 'Attempt', 't': ms()})
+    elif k in ('recv_failed', 'recv_eof', 'send_failed'):
+      ev.append({'e': 'Down', 't': ms()})
+    elif k == 'connect_failed':
+      if env['attempt_open'].pop(c, None):
+        ev.append({'e': 'AttemptEnd', 'ok': 0, 't': ms()})
+    elif k == 'connected':
+      if kind == 'thrift' and env['attempt_open'].pop(c, None):
+        ev.append({'e': 'AttemptEnd', 'ok': 1, 't': ms()})
+    elif k == 'close':
+      if env['attempt_open'].pop(c, None):
+        ev.append({'e': 'AttemptEnd', 'ok': 0, 't': ms()})
+    elif k == 'srv_recv':
+      a = e.get('arg') or ''
+      if a.startswith('r') and a[1:].isdigit():
+        ev.append({'e': 'SrvRecv', 'r': int(a[1:]), 't': ms()})
+    elif k == 'srv_frame' and kind == 'mux' and e.get('mtype') == 65:
+      if env['attempt_open'].get(c):
+        env['attempt_open'].pop(c, None)
+        ev.append({'e': 'AttemptEnd', 'ok': 1, 't': ms()})
+  net.listeners.append(on_net)
+
+  nreq = [0]
+
+  def burst():
+    d = client._dispatcher
+    for _ in range(n + 1):
+      nreq[0] += 1
+      d.DispatchMethodCall('hi', ('r%d' % nreq[0],), {}, timeout=0.9)
+
+  def quiet():
+    loop.settle()
+    ev.append({'e': 'Quiet', 't': ms()})
+
+  loop.settle()
+  slack = 9500
+  for op in script['steps']:
+    k = op[0]
+    if k == 'reach':
+      up, h = bool(op[1]), hosts[op[2]]
+      if up != env['up'][h]:
+        env['up'][h] = up
+        if h == fhost:
+          ev.append({'e': 'Reach', 'up': 1 if up else 0, 't': ms()})
+          if up:
+            env['last_up_at'] = ms()
+        if not up:
+          for c in net.conns:
+            if c.addr is not None and c.addr[0] == h and c.connected and not c.closed:
+              c.feed_error()
+        loop.run_until_idle()
+    elif k == 'traffic':
+      dur, spacing = op[1], op[2]
+      t_end = ms() + dur
+      while ms() < t_end and not env['closed']:
+        burst()
+        loop.run_for(spacing / 1000.0)
+        loop.settle()
+      quiet()
+    elif k == 'adv':
+      loop.run_for(op[1] / 1000.0)
+      quiet()
+    elif k == 'recover':
+      if env['closed'] or not env['up'][fhost]:
+        continue
+      spacing = op[1]
+      tau = env['last_up_at']
+      t_end = max(ms(), tau) + int(script['max'] * 1000) + slack + spacing + 10
+      began = ms()
+      while ms() < t_end:
+        burst()
+        loop.run_for(spacing / 1000.0)
+        loop.settle()
+      ev.append({'e': 'Recover', 'tau': max(tau, began), 't': ms()})
+    elif k == 'close':
+      if not env['closed']:
+        env['closed'] = True
+        client.DispatcherClose()
+        loop.run_until_idle()
+        ev.append({'e': 'ClientClosed', 't': ms()})
+  quiet()
+  return {'cfg': {'t0': T0, 'initial': int(script['initial'] * 1000), 'max': int(script['max'] * 1000), 'slack': slack,
+                  'kind': kind, 'level': 'multi'},
+          'ev': ev, 'meta': {'errors': [list(e[1:3]) for e in loop.errors][:4], 'n': n, 'focus': focus,
+                             'balancer': script['balancer']}}
 
 
 def trace_for_tlc(t):
